@@ -150,7 +150,12 @@ func TestVerifDLEQ(t *testing.T) {
 			lib.Count("dleq:honest-accepted")
 			pb, err := p.MarshalBinary()
 			q := new(dleq.Proof)
-			if err != nil || len(pb) != 2*gr.slen || q.UnmarshalBinary(g, pb) != nil {
+			rbuf := lib.Clone(pb) // a receive buffer, re-used right after decoding
+			uerr := q.UnmarshalBinary(g, rbuf)
+			for j := range rbuf {
+				rbuf[j] ^= 0x5A
+			}
+			if err != nil || len(pb) != 2*gr.slen || uerr != nil {
 				lib.Violation("C16:marshal-roundtrip:dleq.Proof", mon, withKV(base, "proof", pb))
 				continue
 			}
